@@ -189,6 +189,15 @@ func (g *pgen) items() []int {
 	return out
 }
 
+// chunkSize: 1-4, rarely the largest legal value (everything in one chunk).
+func (g *pgen) chunkSize() int {
+	n := 1 + g.r.Choose(4, "chunk-n")
+	if g.r.Choose(16, "chunk-huge") == 15 {
+		n = hugeChunk
+	}
+	return n
+}
+
 func (g *pgen) leaf() *pnode {
 	r := g.r
 	k := r.Choose(8, "leaf")
@@ -257,9 +266,9 @@ func (g *pgen) node(depth int) *pnode {
 		}
 		return p
 	case 7:
-		return &pnode{op: "chunk", n: 1 + r.Choose(4, "chunk-n"), kids: []*pnode{g.node(depth - 1)}}
+		return &pnode{op: "chunk", n: g.chunkSize(), kids: []*pnode{g.node(depth - 1)}}
 	case 8:
-		return &pnode{op: "chunkflat", n: 1 + r.Choose(4, "chunk-n"), kids: []*pnode{g.node(depth - 1)}}
+		return &pnode{op: "chunkflat", n: g.chunkSize(), kids: []*pnode{g.node(depth - 1)}}
 	case 9:
 		return &pnode{op: "runssep", n: 1 + r.Choose(3, "coarse"), kids: []*pnode{g.node(depth - 1)}}
 	case 10:
